@@ -459,6 +459,30 @@ def r3(ctx, chk):
     chk.ob(rule + "b", "info['name'] is distinct for all %d locales" % sum(len(v) for v in names.values()), not dup,
            "locales sharing a cache slot: %s" % dict(list(dup.items())[:3]),
            key={"construct": "distinct locale names"}, file="dateparser/data/date_translation_data", function="name", line=None)
+    # ... and the name the caches are keyed by IS that distinct locale name: the Dictionary keeps the info it is given, and it is given
+    # the Locale's own merged info
+    for ck in ("dateparser.languages.dictionary:Dictionary", "dateparser.languages.dictionary:NormalizedDictionary"):
+        init = ix.func(ck + ".__init__")
+        ps = init.params()
+        stores = [n for n in iter_own_nodes(init.node) if isinstance(n, ast.Assign) and ast.unparse(n.targets[0]) == "self.info"]
+        if ck.endswith(":Dictionary"):
+            gi = CFG(init.node)
+            okd = len(stores) == 1 and isinstance(stores[0].value, ast.Name) and stores[0].value.id == ps[1] \
+                and gi.reaching_defs(ps[1]).get(next(iter(gi.nodes_of(stores[0])), None), set()) <= {gi.entry.id}
+            chk.ob(rule + "b", "Dictionary.__init__ keeps the locale info it is given (self.info = %s)" % ps[1], okd,
+                   "self.info = %s: the caches are keyed by self.info['name'], so a rewritten or shortened name makes several locales share "
+                   "one cache slot (whichever was compiled first serves the others)" % (ast.unparse(stores[0].value)[:70] if stores else None),
+                   key={"function": init.key, "construct": "info kept as given"}, file=init.file, function=init.qual,
+                   line=stores[0].lineno if stores else init.node.lineno)
+        else:
+            chk.ob(rule + "b", "NormalizedDictionary does not rebind self.info", not stores, "", key={"function": init.key, "construct": "info kept as given"},
+                   file=init.file, function=init.qual, line=init.node.lineno)
+    for gk in ("dateparser.languages.locale:Locale._generate_dictionary", "dateparser.languages.locale:Locale._generate_normalized_dictionary"):
+        gf = ix.func(gk)
+        calls = [n for n in iter_own_nodes(gf.node) if isinstance(n, ast.Call) and ast.unparse(n.func).endswith("Dictionary")]
+        okc = len(calls) == 1 and bool(calls[0].args) and ast.unparse(calls[0].args[0]) == "self.info"
+        chk.ob(rule + "b", "%s builds the dictionary from the locale's own info" % gf.qual, okc, "", key={"function": gk, "construct": "dictionary from self.info"},
+               file=gf.file, function=gf.qual, line=gf.node.lineno)
     # (c) eviction spares the key just written
     pops = [n for n in iter_own_nodes(w.node) if isinstance(n, ast.Call) and isinstance(n.func, ast.Attribute)
             and n.func.attr in ("pop", "popitem") and ast.unparse(n.func.value) == "cache"] + \
